@@ -112,6 +112,7 @@ func writeEvidence(prop, tier string, seed int64, conf propConf, m *workerResult
 }
 
 var rules = map[string]string{
+	"C06": "each evaluation is one request (or one lexer/parser run) on one input; inputs are enumerated exhaustively from the alphabets, so they are distinct; distinct_nontrivial counts the inputs (not requests) that are not valid journals of G, which is every enumerated string, fragment sequence and pumped input",
 	"C15": "each evaluation is one complete scenario run on a fresh real server under one map-order plan (a deviating permutation at one dynamic range, or two in thorough); distinct plans by construction; every one is non-trivial because only ranges over >= 2 keys are deviated",
 	"C19": "each evaluation is one event sequence (1..4 configuration events) applied to a fresh server, followed by the comparison of all 24 effective settings and, where enabled, eight behaviour probes; non-trivial = ill-typed, non-positive, partial, wrapped/dotted or later-in-sequence payloads",
 	"C20": "each evaluation is one hover request at one position of one scenario on a fresh server; distinct by construction; non-trivial = the aggregate spans at least two files",
@@ -134,6 +135,7 @@ var rules = map[string]string{
 }
 
 var assumptions = map[string][]string{
+	"C06": {"every character class the code distinguishes has a representative in the alphabet (taken from the comparisons against byte/rune constants in lexer.go, parser.go, completion.go, folding.go, inline_completion.go)", "worker death and the watchdog are attributed to the announced case"},
 	"C15": {"nondeterminism other than map order and goroutine order does not exist in the code (no rand, no pointer-keyed maps, no %p); the three clock-derived date completion items are avoided by the scenarios"},
 	"C19": {"the client answers workspace/configuration with its current settings", "configuration refreshes run to completion at spawn (inline schedule); their interleavings are C14's business"},
 	"C20": {"the hover markdown layout (**Balance:** lines '- <decimal> <commodity>', **Postings:** n, **Transactions:** n, **Usage:** n, **Amount:**, **Unit/Total cost:**) is parsed back; a change of layout is reported as missing figures"},
